@@ -26,6 +26,9 @@ THEOREMS = [
     "PV.C07.merge_spec",
     "PV.C07.merge_fails_empty_literal",
     "PV.C07.selfdoc_spec",
+    "PV.C07.strict_is_restriction",
+    "PV.C07.field_offsets",
+    "PV.C07.capture_no_cr",
     "PV.C07.field_offsets_crlf_fails",
 ]
 TRUSTED = [
@@ -51,11 +54,11 @@ PARTIAL = [
     "'(' text ')' at offset-1 is checked by the harness on every request, not proved",
     "merge_spec: equality with the reference merge under noEmptyRun (an empty plain literal that is not adjacent to "
     "other literal text leaves an empty constant: known finding, witness merge_fails_empty_literal)",
-    "field offsets are offsets into the token value the lexer captured; they are source offsets only when the literal "
-    "contains no CRLF (witness field_offsets_crlf_fails; general no-CR statement not proved, sampled by every stream "
-    "through CPython's positions)",
-    "that the strict scanner is a restriction of the reference scanner (same answer wherever it answers) is checked on "
-    "every run over the generated sources (spec validation), not proved",
+    "field offsets: proved are (field_offsets) every reported offset locates the field's text in the token value, and "
+    "(capture_no_cr) the token value of a CR-free literal is the source slice between the quotes; with a CRLF inside the "
+    "literal the offsets are one byte early per CRLF (witness field_offsets_crlf_fails, known finding). The glue between "
+    "the two (prefix and quote lengths of lex_string) is not stated as one theorem; it is sampled by every stream "
+    "through CPython's positions",
 ]
 READY = True
 TECHNIQUE = ("Lean 4 model of the hand-written f-string scanner + independent reference scanner + theorems relating "
